@@ -214,7 +214,7 @@ add('C05',
     jobs=[job('slab_sched', 'c05_slab_sched.cpp', shards={'quick': 8, 'thorough': 16}),
           job('slab_tsan', 'c05_tsan.cpp', flavour='tsan', shards={'quick': 4, 'thorough': 8})],
     min_evaluations={'quick': 5000, 'thorough': 100000},
-    min_counters={'schedules': 5000, 'dfs_spaces_exhausted': 4, 'schedules_with_concurrent_slab_construction_or_extra_map': 500, 'tsan_allocations': 100000, 'tsan_cross_thread_frees': 1000},
+    min_counters={'schedules': 5000, 'dfs_spaces_exhausted': 4, 'reentrant_policy_allocations': 1000, 'schedules_with_concurrent_slab_construction_or_extra_map': 500, 'tsan_allocations': 100000, 'tsan_cross_thread_frees': 1000},
     assumptions=['the controlled scheduler explores sequentially consistent interleavings at lock operations, hook points and policy callbacks; data races on pool state are observed by ThreadSanitizer in the free-running runs',
                  'blocks are written with plain stores by their owner, so a double hand-out is also a data race'],
     )
